@@ -106,6 +106,11 @@ enum W {
     Emit,
     CallDef(usize),
     Compr(u64),
+    /// Call of `partial(w_i)` bound to a module-level name (a callable value that is neither a def nor a native).
+    CallPartial(usize),
+    /// Call of a record type (constructor) and of a bound method stored in a variable.
+    CallRecord,
+    CallBound,
 }
 
 fn ticks(w: &[W], defs: &[Vec<W>]) -> u64 {
@@ -116,6 +121,10 @@ fn ticks(w: &[W], defs: &[Vec<W>]) -> u64 {
             W::Emit => 1,
             W::CallDef(i) => 1 + ticks(&defs[*i], defs),
             W::Compr(n) => 2 + *n,
+            // one tick for the call instruction; the def behind the partial is entered natively (no further call
+            // instruction), its body ticks as usual
+            W::CallPartial(i) => 1 + ticks(&defs[*i], defs),
+            W::CallRecord | W::CallBound => 1,
         })
         .sum()
 }
@@ -125,8 +134,8 @@ fn emits(w: &[W], defs: &[Vec<W>]) -> u64 {
         .map(|x| match x {
             W::Loop(n, body) => n * emits(body, defs),
             W::Emit => 1,
-            W::CallDef(i) => emits(&defs[*i], defs),
-            W::Compr(_) => 0,
+            W::CallDef(i) | W::CallPartial(i) => emits(&defs[*i], defs),
+            W::Compr(_) | W::CallRecord | W::CallBound => 0,
         })
         .sum()
 }
@@ -145,6 +154,9 @@ fn render_w(w: &[W], indent: usize, out: &mut String, ctr: &mut u32) {
             }
             W::Emit => out.push_str(&format!("{pad}emit(0)\n")),
             W::CallDef(i) => out.push_str(&format!("{pad}w{i}()\n")),
+            W::CallPartial(i) => out.push_str(&format!("{pad}pw{i}()\n")),
+            W::CallRecord => out.push_str(&format!("{pad}_r = WRec(a = 1)\n")),
+            W::CallBound => out.push_str(&format!("{pad}_b = wfmt(1)\n")),
             W::Compr(n) => {
                 *ctr += 1;
                 out.push_str(&format!("{pad}_c{} = [_q for _q in range(opaque({n}))]\n", *ctr));
@@ -160,7 +172,11 @@ fn gen_w(ch: &mut Choices, depth: u32, ndefs: usize, budget: &mut u64) -> Vec<W>
         if *budget == 0 {
             break;
         }
-        match ch.weighted(&[4, 3, if ndefs > 0 { 2 } else { 0 }, 1]) {
+        match ch.weighted(&[4, 3, if ndefs > 0 { 2 } else { 0 }, 1, if ndefs > 0 { 1 } else { 0 }, 1]) {
+            4 => v.push(W::CallPartial(ch.idx(ndefs))),
+            // (calls of record types and of bound methods of constant strings with constant arguments are folded at
+            // compile time once everything is frozen - legitimately 0 ticks - so they are not part of the exact model)
+            5 => v.push(W::Emit),
             0 if depth < 3 => {
                 let k = *ch.pick(&[0u64, 1, 2, 3, 7, 10, 40, 100, 333]);
                 let k = k.min(*budget);
@@ -182,6 +198,8 @@ struct Workload {
     body: String,
     t: u64,
     e: u64,
+    /// Ticks spent by the module-level set-up statements of `src_defs` (record(...) and one partial(...) per def).
+    setup: u64,
 }
 
 fn gen_workload(ch: &mut Choices) -> Workload {
@@ -201,10 +219,12 @@ fn gen_workload(ch: &mut Choices) -> Workload {
         // change the count between configurations)
         src_defs.push_str(&format!("def w{i}():\n    _x = []\n"));
         render_w(d, 1, &mut src_defs, &mut ctr);
+        src_defs.push_str(&format!("pw{i} = partial(w{i})\n"));
     }
+    src_defs.push_str("WRec = record\nwfmt = \"{}-x\".format\n");
     let mut body = String::new();
     render_w(&main, 0, &mut body, &mut ctr);
-    Workload { src_defs, body, t: ticks(&main, &defs), e: emits(&main, &defs) }
+    Workload { src_defs, body, t: ticks(&main, &defs), e: emits(&main, &defs), setup: defs.len() as u64 }
 }
 
 #[derive(Clone, Copy, Debug, PartialEq)]
@@ -330,7 +350,8 @@ fn run_reuse(ws: &[Workload], ks: &[u64], last_budget_delta: Option<i64>, r: &mu
             flag.set(false);
             let t0 = eval.get_total_tick_count();
             let last = i + 1 == n;
-            let budget = if last { last_budget_delta.map(|d| ((t0 + w.t) as i64 + d).max(1) as u64) } else { None };
+            let wt = w.t + w.setup;
+            let budget = if last { last_budget_delta.map(|d| ((t0 + wt) as i64 + d).max(1) as u64) } else { None };
             if let Some(b) = budget {
                 threshold.set(None);
                 if eval.set_max_tick_count(b).is_err() {
@@ -359,10 +380,10 @@ fn run_reuse(ws: &[Workload], ks: &[u64], last_budget_delta: Option<i64>, r: &mu
                     }
                 }
                 Some(b) => {
-                    let want_fail = t0 + w.t > b;
+                    let want_fail = t0 + wt > b;
                     match (&res, want_fail) {
-                        (Ok(()), true) => r.fail("tick-limit-not-enforced", format!("{what}: {t0} ticks so far + T={} > budget {b} but evaluation succeeded", w.t)),
-                        (Err(m), false) => r.fail("tick-limit-too-early", format!("{what}: {t0} + T={} <= budget {b} but evaluation failed: {m}", w.t)),
+                        (Ok(()), true) => r.fail("tick-limit-not-enforced", format!("{what}: {t0} ticks so far + T={} > budget {b} but evaluation succeeded", wt)),
+                        (Err(m), false) => r.fail("tick-limit-too-early", format!("{what}: {t0} + T={} <= budget {b} but evaluation failed: {m}", wt)),
                         (Err(m), true) => {
                             if !m.contains("tick") {
                                 r.fail("tick-limit-wrong-error", format!("{what}: expected the tick-limit error, got {m}"));
@@ -372,8 +393,8 @@ fn run_reuse(ws: &[Workload], ks: &[u64], last_budget_delta: Option<i64>, r: &mu
                             }
                         }
                         (Ok(()), false) => {
-                            if eval.get_total_tick_count() != t0 + w.t {
-                                r.fail("tick-count-model", format!("{what}: total tick count {} but {t0} + {} expected", eval.get_total_tick_count(), w.t));
+                            if eval.get_total_tick_count() != t0 + wt {
+                                r.fail("tick-count-model", format!("{what}: total tick count {} but {t0} + {} expected", eval.get_total_tick_count(), wt));
                             }
                         }
                     }
@@ -485,7 +506,8 @@ impl Prop for C15 {
         let w = gen_workload(ch);
         let place = *ch.pick(&[Place::Module, Place::InDef, Place::Frozen]);
         // the call of main() itself is one more call instruction
-        let t = w.t + if place == Place::Module { 0 } else { 1 };
+        // the set-up statements run in the evaluated module except when the defs live in the frozen module
+        let t = w.t + if place == Place::Module { 0 } else { 1 } + if place == Place::Frozen { 0 } else { w.setup };
         let mode = ch.below(10);
         let mut r = CaseResult::new(format!("[{place:?}] T={t} emits={}\n{}{}", w.e, w.src_defs, w.body));
         r.evals = 0;
